@@ -348,3 +348,108 @@ def _target_name(t: Any) -> str:
     if isinstance(t, type):
         return f"{t.__module__}.{t.__qualname__}"
     return f"<{type(t).__name__}:{getattr(t, '__name__', '')}>"
+
+
+# ---------------------------------------------------------------------------
+# dispatch tables of the host libraries (dict contents, not attribute identity)
+# ---------------------------------------------------------------------------
+
+
+class Tables:
+    """JAX keeps its per-primitive rules (batching, jvp, transpose, MLIR
+    lowerings, partial-eval/dce rules, ...) in module-level dicts keyed by
+    Primitive objects, and a few per-primitive rules on the Primitive instance
+    itself.  Rebinding an entry for a primitive the *host* owns changes eager
+    behaviour exactly like rebinding a module attribute does, without touching
+    any attribute.  Host-owned = a Primitive reachable as an attribute of a
+    watched module at baseline (the converter's own primitives live in
+    jax2onnx modules and are not watched)."""
+
+    def __init__(self) -> None:
+        self.host_prims: dict[int, Any] = {}
+        self.tables: dict[tuple[str, str], tuple[dict, dict[int, Any]]] = {}
+        self.prim_attrs: dict[tuple[int, str], Any] = {}
+        self.n = 0
+
+    @classmethod
+    def take(cls) -> "Tables":
+        t = cls()
+        try:
+            from jax._src import core as jcore
+
+            P = jcore.Primitive
+        except Exception:
+            return t
+        mods = watched_modules()
+        for name, m in mods:
+            try:
+                items = list(vars(m).items())
+            except Exception:
+                continue
+            for a, v in items:
+                if isinstance(v, P):
+                    t.host_prims.setdefault(id(v), v)
+        seen: set[int] = set()
+        for name, m in mods:
+            try:
+                items = list(vars(m).items())
+            except Exception:
+                continue
+            for a, v in items:
+                if type(v) is not dict or id(v) in seen or not v:
+                    continue
+                seen.add(id(v))
+                try:
+                    ks = list(v.keys())
+                except Exception:
+                    continue
+                if not any(isinstance(k, P) for k in ks[:8]):
+                    continue
+                t.tables[(name, a)] = (v, {id(k): v[k] for k in ks if id(k) in t.host_prims})
+        for pid_, p in t.host_prims.items():
+            try:
+                for a, v in vars(p).items():
+                    if _is_codelike(v):
+                        t.prim_attrs[(pid_, a)] = v
+            except Exception:
+                continue
+        t.n = sum(len(e[1]) for e in t.tables.values()) + len(t.prim_attrs)
+        return t
+
+    def check(self, ignore: set | None = None) -> list[dict]:
+        ignore = ignore or set()
+        out: list[dict] = []
+        for (mod, attr), (d, base) in self.tables.items():
+            for kid, v0 in base.items():
+                p = self.host_prims[kid]
+                tag = f"{mod}.{attr}[{getattr(p, 'name', '?')}]"
+                if tag in ignore:
+                    continue
+                v1 = d.get(p, _MISSING)
+                if v1 is v0:
+                    continue
+                out.append({"where": tag, "kind": "deleted" if v1 is _MISSING else "rebound", "now_from_jax2onnx": _from_jax2onnx(v1) if v1 is not _MISSING else False, "now": _short(v1) if v1 is not _MISSING else None})
+            # entries the converter adds for a primitive the host owns
+            try:
+                cur = list(d.items())
+            except Exception:
+                cur = []
+            for k, v1 in cur:
+                if id(k) in self.host_prims and id(k) not in base and _from_jax2onnx(v1):
+                    tag = f"{mod}.{attr}[{getattr(k, 'name', '?')}]"
+                    if tag not in ignore:
+                        out.append({"where": tag, "kind": "added", "now_from_jax2onnx": True, "now": _short(v1)})
+        for (kid, a), v0 in self.prim_attrs.items():
+            p = self.host_prims[kid]
+            tag = f"<Primitive {getattr(p, 'name', '?')}>.{a}"
+            if tag in ignore:
+                continue
+            v1 = vars(p).get(a, _MISSING)
+            if v1 is v0:
+                continue
+            # bound methods are re-created on access only through descriptors; vars() holds the stored object
+            if isinstance(v0, types.MethodType) and isinstance(v1, types.MethodType) and v0.__func__ is v1.__func__ and v0.__self__ is v1.__self__:
+                continue
+            out.append({"where": tag, "kind": "deleted" if v1 is _MISSING else "rebound", "now_from_jax2onnx": _from_jax2onnx(v1) if v1 is not _MISSING else False, "now": _short(v1) if v1 is not _MISSING else None})
+        out.sort(key=lambda d_: (d_["where"], d_["kind"]))
+        return out
